@@ -249,6 +249,9 @@ def check(ctx, rep):
     from .c03 import rule_empty_diff
 
     rule_empty_diff(ctx, rep)
+    from .c06 import rule_rule_keyed
+
+    rule_rule_keyed(ctx, rep)
     rep.not_covered += [
         "fixed point for arbitrary programs and for codemods without a rule of their own (beyond the table rule)",
         "codemods listed as not-modelled: " + ", ".join(sorted(NOT_MODELLED)),
